@@ -213,6 +213,10 @@ func c14Cases() []c14Case {
 		c14Case{desc: "style-object:custom-property-keeps-case", tpl: `<p :style="{'--mainColor': c, '--Gap-X': '2px'}">t</p>`, data: map[string]any{"c": "blue"}, want: map[string]string{"style": ""}, style: map[string]string{"--mainColor": "blue", "--Gap-X": "2px"}},
 		c14Case{desc: "style-object:custom-property-overrides-static", tpl: `<p style="--mainColor:red;color:var(--mainColor)" :style="{'--mainColor': c}">t</p>`, data: map[string]any{"c": "blue"}, want: map[string]string{"style": ""}, style: map[string]string{"--mainColor": "blue", "color": "var(--mainColor)"}},
 		c14Case{desc: "style-object:vendor-prefix-and-camel", tpl: `<p :style="{'-webkit-lineClamp': n, msTransform: 'none'}">t</p>`, data: map[string]any{"n": 3}, want: map[string]string{"style": ""}, style: map[string]string{"-webkit-lineClamp": "3", "ms-transform": "none"}},
+		// a key spelled exactly like a static declaration's name overrides that declaration - also when the name begins with a capital
+		c14Case{desc: "style-object:capital-key-overrides-static", tpl: `<p style="Color: blue; margin: 0" :style="{Color: 'red'}">t</p>`, data: map[string]any{}, want: map[string]string{"style": ""}, style: map[string]string{"Color": "red", "margin": "0"}},
+		c14Case{desc: "style-object:capital-keys-override-static", tpl: `<p style="Top: 1px; Margin: 0; color: blue" :style="{Top: t, Margin: m}">t</p>`, data: map[string]any{"t": "2px", "m": "4px"}, want: map[string]string{"style": ""}, style: map[string]string{"Top": "2px", "Margin": "4px", "color": "blue"}},
+		c14Case{desc: "style-object:capital-key-quoted-overrides-static", tpl: `<p style="margin: 0; Display: block" :style="{'Display': d}">t</p>`, data: map[string]any{"d": "flex"}, want: map[string]string{"style": ""}, style: map[string]string{"Display": "flex", "margin": "0"}},
 		c14Case{desc: "style-object:hyphen-key", tpl: `<p :style="{'font-size': s}">t</p>`, data: map[string]any{"s": "9px"}, want: map[string]string{"style": ""}, style: map[string]string{"font-size": "9px"}},
 		c14Case{desc: "style-bound-string", tpl: `<p style="color: red" :style="s">t</p>`, data: map[string]any{"s": "color: green; top: 1px"}, want: map[string]string{"style": ""}, style: map[string]string{"color": "green", "top": "1px"}},
 		c14Case{desc: "style-bound-nonstring", tpl: `<p style="color: red" :style="n">t</p>`, data: map[string]any{"n": 5}, want: map[string]string{"style": ""}, style: map[string]string{"color": "red"}},
